@@ -11,18 +11,20 @@ struct RecordingAllocator : public TestMemoryAllocator {
     std::map<char*, unsigned long> ids;
     unsigned long next;
     bool quiet;
-    RecordingAllocator() : TestMemoryAllocator("recording", "ralloc", "rfree"), next(1), quiet(false) {}
+    const char* tag;        // "u": the allocator the cache was given; "u2": another allocator installed later
+    RecordingAllocator(const char* t = "u", unsigned long first = 1)
+        : TestMemoryAllocator("recording", "ralloc", "rfree"), next(first), quiet(false), tag(t) {}
     char* alloc_memory(size_t size, const char*, size_t) CPPUTEST_OVERRIDE {
         char* p = (char*) malloc(size ? size : 1);
         unsigned long id = next++;
         ids[p] = id;
-        if (!quiet) vh::emit("ualloc %lu %lu", (unsigned long) size, id);
+        if (!quiet) vh::emit("%salloc %lu %lu", tag, (unsigned long) size, id);
         return p;
     }
     void free_memory(char* memory, size_t size, const char*, size_t) CPPUTEST_OVERRIDE {
         std::map<char*, unsigned long>::iterator it = ids.find(memory);
         unsigned long id = it == ids.end() ? 0 : it->second;   // 0: never allocated here / already freed
-        if (!quiet) vh::emit("ufree %lu %lu", id, (unsigned long) size);
+        if (!quiet) vh::emit("%sfree %lu %lu", tag, id, (unsigned long) size);
         if (it != ids.end()) { ids.erase(it); free(memory); }
     }
 };
@@ -34,8 +36,13 @@ const vh::Case* g_case = 0;
 char g_foreign[8][16] = { "foreign0", "foreign1", "foreign2", "foreign3", "foreign4", "foreign5", "foreign6", "foreign7" };
 const unsigned long FOREIGN_BASE = 1000000;
 
+struct LiveString { SimpleString* s; unsigned long id; size_t len; };
+
 void body() {
     RecordingAllocator rec;
+    RecordingAllocator rec2("u2", 500001);       // installed as string allocator by `gswap` while the global cache exists
+    bool swapped = false;
+    std::map<std::string, LiveString> strings;   // real SimpleString objects living in the global cache
     SimpleStringInternalCache* cache = 0;
     GlobalSimpleStringCache* gcache = 0;          // the global cache object (string allocator = its SimpleStringCacheAllocator)
     TestMemoryAllocator* savedStringAllocator = 0;
@@ -45,7 +52,7 @@ void body() {
     for (size_t i = 0; i < c.ops.size(); i++) {
         const vh::Words& w = c.ops[i];
         size_t before = vh::fixture_output_size();
-        if (w[0] == "create") {
+        if (w[0] == "create" && !cache && !gcache) {
             vh::emit_op("create");
             // The constructor (and destructor) take the node table from defaultMallocAllocator(),
             // which cannot be replaced; the table allocation is therefore not observed.
@@ -60,6 +67,57 @@ void body() {
             rec.quiet = true;                          // `new SimpleStringCacheAllocator` etc. are not string buffers
             gcache = new GlobalSimpleStringCache();
             rec.quiet = false;
+            // which allocator do strings use now?
+            TestMemoryAllocator* cur = SimpleString::getStringAllocator();
+            vh::emit("stralloc %s", cur == gcache->getAllocator() ? "cache" : cur == &rec ? "orig" : "unknown");
+        }
+        else if (w[0] == "gswap" && gcache && !swapped) {
+            // a test installs another string allocator while the global cache exists: the cache keeps the
+            // underlying allocator it was constructed with, and its destructor restores the saved one
+            vh::emit_op("gswap");
+            SimpleString::setStringAllocator(&rec2);
+            swapped = true;
+        }
+        else if (w[0] == "names" && gcache) {
+            vh::emit_op("names");
+            TestMemoryAllocator* a = gcache->getAllocator();
+            vh::emit("name %s %s %s", a->name(), a->alloc_name(), a->free_name());
+            vh::emit("actual %s", a->actualAllocator() == &rec ? "orig" : a->actualAllocator() == a ? "cache" : "unknown");
+        }
+        else if (w[0] == "sstr" && w.size() >= 3 && gcache && !swapped) {
+            // a real SimpleString of <len> characters: its buffer (len + 1 bytes) comes out of the global cache
+            size_t len = (size_t) vh::to_u64(w[1]);
+            vh::emit("> sstr %lu", (unsigned long) len);
+            std::string text(len, 'y');
+            LiveString ls; ls.len = len;
+            ls.s = new SimpleString(text.c_str());
+            char* p = const_cast<char*>(ls.s->asCharString());
+            ls.id = rec.ids.count(p) ? rec.ids[p] : 0;
+            strings[w[2]] = ls;
+            vh::emit("ret %lu", ls.id);
+        }
+        else if (w[0] == "sappend" && w.size() >= 3 && gcache && !swapped && strings.count(w[1])) {
+            // operator+= : new buffer of len + k + 1 bytes first, then the old buffer is released
+            LiveString& ls = strings[w[1]];
+            size_t k = (size_t) vh::to_u64(w[2]);
+            vh::emit("> sappend %lu %lu %lu", ls.id, (unsigned long) ls.len, (unsigned long) k);
+            std::string more(k, 'z');
+            *ls.s += more.c_str();
+            char* p = const_cast<char*>(ls.s->asCharString());
+            ls.id = rec.ids.count(p) ? rec.ids[p] : 0;
+            ls.len += k;
+            vh::emit("newbuf %lu", ls.id);
+        }
+        else if (w[0] == "sdel" && w.size() >= 2 && gcache && !swapped && strings.count(w[1])) {
+            LiveString ls = strings[w[1]];
+            strings.erase(w[1]);
+            vh::emit("> sdel %lu %lu", ls.id, (unsigned long) ls.len);
+            delete ls.s;
+        }
+        else if (w[0] == "hasfree" && w.size() >= 2 && cache) {
+            size_t size = (size_t) vh::to_u64(w[1]);
+            vh::emit("> hasfree %lu", (unsigned long) size);
+            vh::emit("hasfree %d", cache->hasFreeBlocksOfSize(size) ? 1 : 0);
         }
         else if (w[0] == "gnested" && !cache && !gcache) {
             // The one-time warning is printed through the test's output, whose text buffer was allocated
@@ -103,8 +161,12 @@ void body() {
         }
         else if (w[0] == "gdestroy" && gcache) {
             vh::emit_op("gdestroy");
+            strings.clear();          // the string objects are abandoned: their buffers go back with the cache
             delete gcache; gcache = 0;
+            TestMemoryAllocator* cur = SimpleString::getStringAllocator();
+            vh::emit("stralloc %s", cur == &rec ? "orig" : cur == &rec2 ? "other" : "unknown");
             SimpleString::setStringAllocator(savedStringAllocator);
+            swapped = false;
         }
         else if (w[0] == "alloc" && w.size() >= 2 && cache) {        // alloc <size> [label]
             size_t size = (size_t) vh::to_u64(w[1]);
@@ -134,7 +196,8 @@ void body() {
             else vh::emit("print %s", vh::hex(out).c_str());
         }
     }
-    rec.quiet = true;   // end-of-case cleanup is not part of the history
+    rec.quiet = true; rec2.quiet = true;   // end-of-case cleanup is not part of the history
+    strings.clear();
     if (gcache) { delete gcache; gcache = 0; SimpleString::setStringAllocator(savedStringAllocator); }
     if (cache) { cache->clearAllIncludingCurrentlyUsedMemory(); delete cache; }
 }
